@@ -33,6 +33,21 @@ def run(prog, rep):
                  ("C06-R3", "formula_str template covers the structure"), ("C06-R4", "Display spelling == tokenizer spelling")):
         rep.rule(r, t)
     eng = terms.Engine(prog, inline=False)
+    import callgraph
+    edges = callgraph.build(prog, eng)
+    callers = {}
+    for q_, outs in edges.items():
+        for o in outs:
+            callers.setdefault(o, set()).add(q_)
+
+    def is_ctor(g):
+        return g.name in CTORS and "HctlTreeNode" in g.path
+
+    def assembly_helper(g, depth=2):
+        """a private function of the tree module that is only called by the constructors (the struct assembly they share)"""
+        cs = [prog.fns[c] for c in callers.get(g.qual, ()) if c != g.qual]
+        return g.vis != "Public" and g.path.startswith("preprocessing::hctl_tree::") and bool(cs) and \
+            all(is_ctor(c) or (depth > 0 and assembly_helper(c, depth - 1)) for c in cs)
     n_lit = 0
     for q, f in sorted(prog.fns.items()):
         if f.derived:
@@ -41,17 +56,29 @@ def run(prog, rep):
         for st in s.sites:
             if st.kind == "struct" and str(st.callee).endswith("HctlTreeNode"):
                 n_lit += 1
-                inside = f.name in CTORS and "HctlTreeNode" in f.path
+                inside = is_ctor(f) or assembly_helper(f)
                 rep.check(inside, "C06-R1", f"literal/{f.name}@{st.ordinal}", st.where(), "struct literal inside a constructor",
                           f"HctlTreeNode is assembled by hand in {f.path}: text and height are not computed by the constructors")
             if st.kind in ("assign", "assignop") and st.name and st.name.rsplit(".", 1)[-1] in FIELDS and "." in st.name:
                 ty = str(st.ty)
                 rep.violation("C06-R1", f"mutation/{f.name}/{st.name.rsplit('.', 1)[-1]}@{st.ordinal}", st.where(),
                               f"{f.path} assigns to `{st.name}`: a node's text / height / structure can get out of sync")
-    rep.check(n_lit >= 4, "C06-R1", "literal/count", "", f"{n_lit} struct literals, all in constructors", f"only {n_lit} HctlTreeNode literals found")
+    ceng = ctor_engine(prog)
+    for c in CTORS:
+        cf = ctor_fn(prog, c)
+        r = ceng.summary(cf).ret if cf is not None else None
+        rep.check(r is not None and r[0] == "struct" and str(r[1]).endswith("HctlTreeNode"), "C06-R1", f"literal/{c}/assembles", f"{cf.file}:{cf.line}" if cf else "",
+                  "the constructor returns a node it assembles itself", f"constructor {c} does not return a node assembled from its own text / height / structure")
+    rep.check(n_lit >= 1, "C06-R1", "literal/count", "", f"{n_lit} struct literals, all in constructors", f"only {n_lit} HctlTreeNode literals found")
     rep.floor("C06-R1", 5)
-    check_constructors(prog, rep, eng)
+    check_constructors(prog, rep, ceng)
     check_spelling(prog, rep, eng)
+
+
+def ctor_engine(prog):
+    """The constructors with the private helpers of the tree module inlined (the constructors themselves stay opaque to each other)."""
+    names = [f.path for f in prog.lib_fns() if f.name in CTORS and "HctlTreeNode" in f.path]
+    return terms.Engine(prog, inline=True, hooks=E.Hooks(["preprocessing::hctl_tree::"], opaque_names=names))
 
 
 def ctor_fn(prog, name):
